@@ -1151,7 +1151,7 @@ void oracle_c17_cookie(World &w, const History &h)
         w.violate("C17:cookie:omitted-although-support-proven", fmt("tx#%d to server %d carries no cookie although the server has proven support and never regressed", t.id, s));
       continue;
     }
-    int src = t.src_variant;
+    int src = w.cfg->no_getsockname ? 0 : t.src_variant; // without agetsockname the library cannot see the local address: one (unknown) source
     if (L.have) {
       bool same_client = L.client == t.q.client_cookie;
       bool src_changed = L.src != src;
